@@ -137,7 +137,10 @@ def isla_child_mtrees(g, V: str, T_: str, i: int):
             syms = []
             for ch in tree.children:
                 if ch.children:  # deeper than one level
-                    return ("unexpected-shape", str(tree))
+                    # the text of the alternative was parsed through ANOTHER nonterminal (ambiguous grammar; ISLa keeps
+                    # the first parse of a match expression only)
+                    frontier = tuple(l.value for _, l in tree.leaves())
+                    return ("alternative-parsed-through-another-nonterminal", str(tree.to_parse_tree()), frontier)
                 syms.append(ch.value)
             real = [pth for var, pth in binds.items() if not type(var).__name__.endswith("DummyVariable")]
             if len(real) != 1 or len(real[0]) != 1:
